@@ -193,10 +193,9 @@ theorem reachO_cacheOnly {hp hp' : Heap} (hc : CacheOnly hp hp') (root : Option 
     ReachO hp' root a ↔ ReachO hp root a :=
   reachO_iff_of_strip (fun b _ => hc.cell b) a
 
-theorem cache_step {H : Bytes → Bytes} {s : St} (hI : SInv s) {hp' : Heap} (hc : CacheOnly s.hp hp')
-    (actorRoot : Option Nat)
-    (hvp : ∀ ρ, (∀ r, actorRoot = some r → ¬ PD s.hp ρ r) → VP H (PD s.hp ρ) ρ s.hp hp') :
-    SInv { s with hp := hp' } ∧ ∀ k y, Live s k y → Same H s { s with hp := hp' } k y actorRoot := by
+theorem cache_inv {s : St} (hI : SInv s) {hp' : Heap} (hc : CacheOnly s.hp hp') :
+    SInv { s with hp := hp' } ∧
+    ∀ k y, Live s k y → Live { s with hp := hp' } k y ∧ entries hp' y.t.root = entries s.hp y.t.root := by
   refine ⟨⟨?_, ?_, ?_, ?_, hI.parentLt⟩, ?_⟩
   · intro a ha i x hx
     show x < hp'.size
@@ -215,9 +214,16 @@ theorem cache_step {H : Bytes → Bytes} {s : St} (hI : SInv s) {hp' : Heap} (hc
     exact hI.sep i y j z hy hz hij hn a ((reachO_cacheOnly hc _ a).mp ha) hgen'
       ((reachO_cacheOnly hc _ a).mp hb)
   · intro k y hk
-    refine ⟨hk, entries_congr y.t.root (fun b _ => hc.cell b), ?_⟩
-    intro ρ _ hnk m
-    exact (hvp ρ hnk).rval_iff (view_PD s.hp ρ) m
+    exact ⟨hk, entries_congr y.t.root (fun b _ => hc.cell b)⟩
+
+theorem cache_step {H : Bytes → Bytes} {s : St} (hI : SInv s) {hp' : Heap} (hc : CacheOnly s.hp hp')
+    (actorRoot : Option Nat)
+    (hvp : ∀ ρ, (∀ r, actorRoot = some r → ¬ PD s.hp ρ r) → VP H (PD s.hp ρ) ρ s.hp hp') :
+    SInv { s with hp := hp' } ∧ ∀ k y, Live s k y → Same H s { s with hp := hp' } k y actorRoot := by
+  obtain ⟨h1, h2⟩ := cache_inv hI hc
+  refine ⟨h1, fun k y hk => ⟨(h2 k y hk).1, (h2 k y hk).2, ?_⟩⟩
+  intro ρ _ hnk m
+  exact (hvp ρ hnk).rval_iff (view_PD s.hp ρ) m
 
 theorem hash_step {H : Bytes → Bytes} {s : St} (hI : SInv s) (t : Handle) :
     SInv { s with hp := (hash H s.hp t).1 } ∧
